@@ -127,7 +127,11 @@ def run_child(args):
 
 SPECIALS = ['\\textbf x', 'see \\label key', '\\section[short] Title', '\\def\\x y',
             '\\begin{note}a \\textbf{b} and $x$\\end{note} tail', '\\begin{e}\\left.| \\x{a}\\end{e}',
-            '\\begin{mycode}a {b} $c$\\end{mycode}']
+            '\\begin{mycode}a {b} $c$\\end{mycode}',
+            # sizing prefixes with delimiters outside the table, next to ones inside it; zero-arity commands
+            '$\\left\\| v \\right\\| \\leq \\left\\lvert x \\right\\rvert \\big\\lbrace \\bigg\\lVert$',
+            '$\\left\\{ x \\mid x \\right\\} \\left\\langle a \\right\\rangle \\left\\lfloor b \\right\\rfloor \\big\\lbrack \\bigg\\langle$',
+            '\\noindent a $x \\cup y \\in z \\cap \\infty \\notin w$']
 OPTIONS = [{}, {'skip_envs': ('note',)}, {'skip_envs': ('mycode', 'e')}, {'tolerance': 1}, {'skip_envs': ('note', 'mycode'), 'tolerance': 1}]
 
 
